@@ -126,12 +126,17 @@ def judge(case):
             Event.from_ical(pre.to_ical())
         except Exception:  # noqa: BLE001 - only what follows is judged
             pass
-    # an explicit period end one hour later is only well defined away from offset changes (start < end as instants in every
-    # provider's reading); next to a transition the duration form is used instead
     span = timedelta(days=case.get("end_days", 0), hours=1)       # explicit ends may lie days later, across offset changes
     end_wall = naive + span
-    use_end = bool(case.get("end")) and end_wall.year < 2100 and not (zone != "UTC" and (
-        _within(zone, wall, timedelta(hours=3)) or _within(zone, [end_wall.year, end_wall.month, end_wall.day, end_wall.hour, end_wall.minute, end_wall.second], timedelta(hours=3))))
+    use_end = bool(case.get("end")) and end_wall.year < 2100
+    if use_end:
+        # a period needs start <= end as instants *in the reading of the library the zone objects come from*; that is the only
+        # restriction (ends inside gaps and folds are wall-clock times like any other)
+        try:
+            e_obj = mk_dt(src, zone, [end_wall.year, end_wall.month, end_wall.day, end_wall.hour, end_wall.minute, end_wall.second])
+            use_end = dt.astimezone(UTC) <= e_obj.astimezone(UTC)
+        except Exception:  # noqa: BLE001
+            use_end = False
     try:
         if shape == "utc-prop":
             return judge_utc_prop(case, dt)
